@@ -49,6 +49,8 @@ def extra_scenarios(tier, seed):
         # ... or in an exchange that was complete and successful: the adversary of the next connection knows a genuine server signature
         for s in scripts + [['staleFinal', 'staleFinal', 'ok235'], ['keyedFinal', 'ok235'], ['zeroKeyFinal', 'ok235']]:
             out.append(dict(kind='adv', mech=mech, script=s, prior='authobjok', sent=[], ok=(s == scripts[-1])))
+        # two exchanges of the same account in one process, interleaved: the server of the first presents the genuine signature of the second
+        out.append(dict(kind='adv', mech=mech, script=['empty', 'validFirst', 'peerFinal', 'ok235'], prior='peer', sent=[], ok=False))
         # hand-written scripts with symbols outside the alphabet of the design model (prior = "hand": no prediction to compare with)
         for s in (['empty', 'zeroIterFirst', 'zeroKeyFinal', 'ok235'], ['empty', 'negIterFirst', 'zeroKeyFinal', 'ok235'], ['empty', 'zeroIterFirst', 'emptyFinal', 'ok235'],
                   ['empty', 'validFirst', 'srvError', 'ok235'], ['empty', 'srvError', 'ok235'], ['srvError', 'ok235'],
